@@ -5,6 +5,11 @@ HERE = os.path.dirname(os.path.dirname(os.path.abspath(__file__)))
 
 TECH = "deterministic simulation with fault injection"
 CLAIMED = {
+ "C08": dict(
+   level="exploration", design="5/C08",
+   text="Seeded search over permutations of register / call_when_ready / listen_to_dependencies over up to 5 components and 5 waiters (dependency sets in every accepted form, chained registrations, failing callbacks), goUp with 0-3 deferral holders released in every order and manner, quit before/after goUp once or twice; a fresh real POXCore per run; oracle checks exactly-once, never-early, fired-inside-the-completing-call, containment, wiring, and the GoingUp/Up/GoingDown/Down sequence.",
+   note="quit's helper thread is run inline by the harness at chosen points (no real pre-emption of _quit against goUp); time is virtual; relative order of Up and Down and other points the statement is silent on are accepted either way.",
+   technique=TECH + ": operation-history search against a rendezvous/lifecycle reference model"),
  "C03": dict(
    level="exploration", design="5/C03, 5a",
    text="Seeded search over tables built through the byte-level control connection (matches derived from generated frames by random wildcarding, prefix lengths, near-miss perturbation, priority ties, exact entries) and frames injected on ports; the entry whose counters advanced is compared with an independent OF1.0 matcher working on raw bytes. The per-(match, frame) predicate is input-quantified and only sampled.",
